@@ -131,7 +131,8 @@ Proof. induction m as [|f r IH]; intros s H; simpl; [exact H|].
 Lemma np_members_loop st : forall roles memids types memid index ms,
   post tt1 (members_loop st roles memids types memid index ms).
 Proof.
-  induction roles as [|r rr IH]; intros memids types memid index ms; simpl; [apply np_full|].
+  induction roles as [|r rr IH]; intros memids types memid index ms; simpl;
+    [destruct memids; [apply np_full|exact I]|].
   repeat np_step. destruct memids as [|mi mr]; [exact I|]. destruct types as [|t tr]; [exact I|].
   np_step. apply IH.
 Qed.
